@@ -713,7 +713,8 @@ static void op_UIncAgg(const jv *in, jout *out) {
     d = vu_in(in, "data", &len); if (len < 0) { fprintf(stderr, "vh: data missing\n"); exit(3); }
     nb = (size_t)vu_u64(in, "nb", 0); nn = (size_t)vu_u64(in, "nn", 0); n = nb + nn;
     na = n < VU_NKEYS ? n : VU_NKEYS; ns = nn < 64 ? nn : 64;
-    if ((n > na && (size_t)len / 32 >= n + 1) || (nn > ns && nn <= n && (size_t)len / 32 >= n + 1)) { fprintf(stderr, "vh: UIncAgg counts exceed the harness pools\n"); exit(3); }
+    /* the arrays are complete whenever the library's own length check (aggsig_len / 32 - 1 >= n) can pass */
+    if ((size_t)len / 32 > 0 && (size_t)len / 32 - 1 >= n && (n > na || (nn > ns && nn <= n))) { fprintf(stderr, "vh: UIncAgg counts exceed the harness pools\n"); exit(3); }
     pks = (secp256k1_xonly_pubkey*)vu_copy(VU_XO, na * sizeof(*pks)); msgs = (unsigned char*)vu_copy(VU_MSGS, 32 * na);
     sigs = (unsigned char*)vu_alloc(64 * ns);
     for (i = 0; i < ns; i++) { memcpy(sigs + 64 * i, F.ssig, 64); sigs[64 * i + 63] ^= (unsigned char)i; }
